@@ -170,12 +170,41 @@ def _stops_equal(a, b):
     return ""
 
 
+def negligible(layer):
+    """paints nothing visible: no contours, or an extent below one font unit in both directions (e.g. the sliver a
+    clip leaves behind, which vanishes when coordinates are rounded)"""
+    if not layer.contours:
+        return True
+    b = bbox(layer.contours)
+    return (b[2] - b[0]) < 1.0 and (b[3] - b[1]) < 1.0
+
+
+def pair_layers(ref_layers, got_layers):
+    """z-ordered pairs of layers that paint something; None when the counts cannot be reconciled."""
+    if len(ref_layers) == len(got_layers):
+        return [(r, g) for r, g in zip(ref_layers, got_layers) if not (negligible(r) and negligible(g))]
+    r2 = [l for l in ref_layers if not negligible(l)]
+    g2 = [l for l in got_layers if not negligible(l)]
+    if len(r2) == len(g2):
+        return list(zip(r2, g2))
+    r3 = [l for l in ref_layers if l.contours]
+    g3 = [l for l in got_layers if l.contours]
+    if len(r3) == len(g3):
+        return list(zip(r3, g3))
+    return None
+
+
 def compare_layers(ref_layers, got_layers, tol, ngrid=24, check_palette=True):
     """Layerwise comparison.  Returns (problems, stats)."""
     problems = []
     stats = {"layers": len(ref_layers), "max_h_over_eps": 0.0, "max_h": 0.0, "gradient_layers": 0, "grad_decisive_min": None, "max_colour_excess": 0.0, "undecided_gradient_layers": 0}
-    ref_layers = [l for l in ref_layers if l.contours]
-    got_layers = [l for l in got_layers if l.contours]
+    pairs = pair_layers(ref_layers, got_layers)
+    if pairs is not None:
+        ref_layers = [p[0] for p in pairs]
+        got_layers = [p[1] for p in pairs]
+    else:
+        ref_layers = [l for l in ref_layers if l.contours]
+        got_layers = [l for l in got_layers if l.contours]
     if len(ref_layers) != len(got_layers):
         problems.append({"what": "layer count", "ref": len(ref_layers), "got": len(got_layers)})
         return problems, stats
@@ -193,6 +222,9 @@ def compare_layers(ref_layers, got_layers, tol, ngrid=24, check_palette=True):
     for i, (r, g) in enumerate(zip(ref_layers, got_layers)):
         eps = tol.eps(g, r)
         step = max(1.0, tol.upem / 400.0)
+        if not r.contours or not g.contours:
+            problems.append({"what": "layer painted on one side only", "layer": i, "ref_bbox": bbox(r.contours), "got_bbox": bbox(g.contours)})
+            continue
         H = hausdorff(r.contours, g.contours, step=step)
         stats["max_h"] = max(stats["max_h"], H)
         stats["max_h_over_eps"] = max(stats["max_h_over_eps"], H / eps)
